@@ -20,7 +20,7 @@ DIMS = dict(
     pg=[None, "scalar", "mat"],
     pc=[None, "control", "control+", "both"],
     vg=[False, True],
-    vc=[None, "control", "control+", "both"],
+    vc=[None, "control", "control+", "both", "two"],
     concat=[False, True],      # dynamics declared with ONE set_der / set_next call on a concatenation of the states
 )
 CORE = ("method", "intg", "N", "M", "grid", "horizon", "rhs", "pc", "vc")
@@ -97,7 +97,8 @@ def order_layout(d, lay):
     if d["pc"] == "control+": out.append(("pc", 1))
     if d["pc"] == "both": out.append(("pcq", 1))
     out += [e for e in lay if e[0] in ("vg", "Tv", "t0v")]
-    if d["vc"] in ("control", "both"): out.append(("vc", 1))
+    if d["vc"] in ("control", "both", "two"): out.append(("vc", 1))
+    if d["vc"] == "two": out.append(("vc2", 1))
     if d["vc"] == "control+": out.append(("vc", 1))
     if d["vc"] == "both": out.append(("vcq", 1))
     return out
@@ -124,6 +125,7 @@ def check_discrete_system(case, res, tags):
             elif name == "vc": pv.append(tr.vc[k])
             elif name == "pcq": pv.append(tr.pcq[k])
             elif name == "vcq": pv.append(tr.vcq[k])
+            elif name == "vc2": pv.append(tr.vc2[k])
             elif name == "Tp": pv.append(tr.T)
             elif name == "t0p": pv.append(tr.t0)
             else: pv.append(0.77)
